@@ -5,6 +5,7 @@ relabelling, orientation in undirected mode.  Helper file for C08, C11, C12, C03
 import MT.Solver
 import Mathlib.Data.List.Basic
 import Mathlib.Data.List.Nodup
+import Mathlib.Data.Finset.Card
 import Mathlib.Tactic.Linarith
 
 namespace MTProofs
@@ -109,6 +110,22 @@ theorem mem_interleave {s e : List β} {x : β} (h : s.length = e.length) :
       simp only [List.zip_cons_cons, List.flatMap_cons, List.cons_append, List.nil_append, List.mem_cons,
         ih h]
       tauto
+
+/-- the number of distinct values -/
+theorem firstApp_length (l : List β) : (firstApp l).length = l.toFinset.card := by
+  rw [← List.toFinset_card_of_nodup (firstApp_nodup l)]
+  congr 1
+  ext x
+  simp only [List.mem_toFinset, mem_firstApp]
+
+/-- the vertex count used by the validation is the number of vertices the network gets -/
+theorem numVertices_eq (s e : List β) (h : s.length = e.length) :
+    numVertices s e = (firstApp (interleave s e)).length := by
+  unfold numVertices
+  rw [firstApp_length, firstApp_length]
+  congr 1
+  ext x
+  simp only [List.mem_toFinset, List.mem_append, mem_interleave h]
 
 end firstApp
 
